@@ -161,6 +161,10 @@ pub fn run(tier: Tier) -> i32 {
                 let mut g = f.clone();
                 g.blocks[bi].o_filters = Some(vec![fspec.clone(), lz.clone()]);
                 items.push((format!("[{}] block {} filter chain {:#x} -> LZMA2", bn, bi, id), xz::build(&g).0, false, 0));
+                // ... and listed AFTER LZMA2 (never valid: LZMA2 must be last - and never supported)
+                let mut g = f.clone();
+                g.blocks[bi].o_filters = Some(vec![lz.clone(), (mbi(*id), mbi(props.len() as u64), props.clone())]);
+                items.push((format!("[{}] block {} filter chain LZMA2 -> {:#x}", bn, bi, id), xz::build(&g).0, false, 0));
             }
         }
         // two LZMA2 filters in a chain is not something lzma-rs refuses by table (it decodes twice): not submitted.
